@@ -385,9 +385,7 @@ func RunC20(tier string) int {
 		}
 		run.Count("edit_rebuilds_checked", 1)
 		_ = os.Remove("")
-		if i < 2 {
-			run.Sample(map[string]any{"case": i, "shape": s.Shape(), "nodes": g.labels})
-		}
+		run.Sample(map[string]any{"case": i, "shape": s.Shape(), "nodes": g.labels})
 	})
 	run.Assume("aliases are nodes of the dependency relation; whether an alias line passes a --target-type filter is not fixed by the statement (may-print)")
 	return run.Finish()
